@@ -154,6 +154,13 @@ func TestC06(t *testing.T) {
 	for _, sc := range serverSpecials() {
 		run("c06-server", sc)
 	}
+	for _, sc := range c06ReturnWindow() {
+		if sc.Mode == "server" {
+			run("c06-server", sc)
+		} else {
+			run("c06-e2e", sc)
+		}
+	}
 	// Rig C: the end-to-end scenarios of C07 and C11 (quick: a sample; thorough: all)
 	n := 0
 	for ti, bt := range c07BaseTraces() {
